@@ -218,6 +218,33 @@ def run(ctx, rep):
                 el = post.segs[-1][1]
                 argvals = [a.place.get() if isinstance(a, RefV) else a for a in s.args]
                 ok = any(el is a for a in argvals) or (isinstance(el, StructV) and s.fn['name'] in ('add_ecam', 'add_isa_string', 'add_mmu_node')) or is_term(el)
+                if not ok and isinstance(el, StructV):
+                    # a private wrapper around the argument (e.g. its little-endian bytes): same bytes as the argument itself
+                    from evalr import int_bits, Top as _Top
+                    try:
+                        eb = s.I.as_bytes(el, el.ty)
+                    except Exception:
+                        eb = None
+                    if eb is not None and not isinstance(eb, _Top):
+                        for (pn, pt), a in zip(params_of(s.fn)[1:], argvals):
+                            w_ = int_bits(norm_ty(pt))
+                            if w_ and is_term(a) and segs_equal(eb, [('int', a, w_ // 8)])[0]: ok = True
+                if not ok and isinstance(el, (StructV, EnumV)):
+                    # a private wrapper (newtype, enum of the entry kinds) that serialises as exactly the argument does
+                    n0 = len(s.I.tops)
+                    try:
+                        eb = emit_value(s.I, el, el.ty)
+                    except Exception:
+                        eb = None
+                    if eb is not None and len(s.I.tops) == n0:
+                        for (pn, pt), a in zip(params_of(s.fn)[1:], argvals):
+                            if not isinstance(a, (StructV, EnumV)): continue
+                            try:
+                                ab = emit_value(s.I, a, a.ty)
+                            except Exception:
+                                ab = None
+                            if ab is not None and len(s.I.tops) == n0 and segs_equal(eb, ab)[0]: ok = True
+                    del s.I.tops[n0:]
                 what = 'the pushed element is not the entry passed in'
             rep.ob('append', s.fn['def'], ok, '%s must append exactly one entry at the end of %s (%s)' % (s.fn['name'], vec, what or repr(post)[:120]), sp=s.fn['sp'], detail={'vector_after': repr(post)[:160]})
     rep.floor('add operations', n_add, 29)
